@@ -153,6 +153,13 @@ func (p prog) build(env *venv.Env, name string) (*dag.DAG, map[string]*vexec.Scr
 	switch p.Pre {
 	case "unmet":
 		d.Preconditions = []dag.Condition{{Condition: "0", Expected: "1"}}
+	case "unmet-first", "unmet-middle", "unmet-last":
+		// lists: one unmet entry among met ones, at every position
+		cs := []dag.Condition{{Condition: "1", Expected: "1"}, {Condition: "1", Expected: "1"}, {Condition: "1", Expected: "1"}}
+		cs[map[string]int{"unmet-first": 0, "unmet-middle": 1, "unmet-last": 2}[p.Pre]] = dag.Condition{Condition: "0", Expected: "1"}
+		d.Preconditions = cs
+	case "met-list":
+		d.Preconditions = []dag.Condition{{Condition: "1", Expected: "1"}, {Condition: "1", Expected: "1"}}
 	case "met":
 		d.Preconditions = []dag.Condition{{Condition: "1", Expected: "1"}}
 	}
@@ -218,7 +225,7 @@ func main() {
 				res.Sample(map[string]any{"program": p.String(), "dry_run_events": len(ev), "history_files": len(files)})
 			}
 		case "C04pre":
-			for _, pre := range []string{"unmet", "met"} {
+			for _, pre := range []string{"unmet", "unmet-first", "unmet-middle", "unmet-last", "met", "met-list"} {
 				pp := p
 				pp.Pre = pre
 				d, sc := pp.build(env, name+pre)
@@ -233,7 +240,7 @@ func main() {
 					res.Violate("C04/dag-precondition/run-does-not-end", pp.String(), map[string]any{"sub": fl.Sub, "prog": pp})
 					continue
 				}
-				if pre == "unmet" {
+				if strings.HasPrefix(pre, "unmet") {
 					switch {
 					case err == nil:
 						res.Violate("C04/dag-precondition/unmet-but-run-accepted", pp.String(), map[string]any{"sub": fl.Sub, "prog": pp})
